@@ -11,8 +11,13 @@ Definition field := N.
 Inductive val : Set :=
   | VNone | VInt (z : Z) | VBool (b : bool) | VStr (s : N) | VFloat (f : N)
   | VCont (k : N) (items : list Z)           (* k: 0 list, 1 dict, 2 set, 3 tuple, ... (declared type) *)
+  | VNest (k : N) (inner : list (list Z))    (* a container (k: 0 list, 1 dict) whose elements are lists: mutable values inside a mutable value *)
   | VStack (frames : list (list val)).       (* TraceStack._stack, oldest first (Python list order) *)
 
+Fixpoint lz_eqb (l1 l2 : list Z) : bool :=
+  match l1, l2 with [] , [] => true | x :: l1', y :: l2' => Z.eqb x y && lz_eqb l1' l2' | _, _ => false end.
+Fixpoint llz_eqb (l1 l2 : list (list Z)) : bool :=
+  match l1, l2 with [] , [] => true | x :: l1', y :: l2' => lz_eqb x y && llz_eqb l1' l2' | _, _ => false end.
 Fixpoint val_eqb (a b : val) {struct a} : bool :=
   match a, b with
   | VNone, VNone => true
@@ -23,6 +28,7 @@ Fixpoint val_eqb (a b : val) {struct a} : bool :=
   | VCont k xs, VCont j ys => N.eqb k j && (fix eql (l1 l2 : list Z) := match l1, l2 with
                                              | [], [] => true | x :: l1', y :: l2' => Z.eqb x y && eql l1' l2'
                                              | _, _ => false end) xs ys
+  | VNest k xs, VNest j ys => N.eqb k j && llz_eqb xs ys
   | VStack fa, VStack fb =>
       (fix eqf (l1 l2 : list (list val)) := match l1, l2 with
          | [], [] => true
@@ -46,6 +52,7 @@ Definition ddel (m : mgr) (f : field) : mgr := filter (fun p => negb (N.eqb (fst
 Inductive init : Set :=
   | IConst (v : val)      (* None / int / bool / str / float: lambda: init_val *)
   | IFresh (k : N) (items : list Z)   (* anything else: a fresh (deep) copy of the value it was declared with *)
+  | IFreshN (k : N) (inner : list (list Z))   (* ... deep: the lists inside are fresh copies too *)
   | IClone.               (* a nested TraceStack: stack_item._clone *)
 Record decl : Set := { auto : list (field * init); manual : list field }.
 (* _stack_item_names(): chain(initializers.keys(), manual set) *)
@@ -56,10 +63,11 @@ Definition init_of (v : val) : init :=
   | VNone => IConst VNone
   | VInt _ | VBool _ | VStr _ | VFloat _ => IConst v
   | VCont k items => IFresh k items
+  | VNest k inner => IFreshN k inner
   end.
 (* _clone (after fix: the clone gets its own empty _stack) *)
 Definition run_init (i : init) : val :=
-  match i with IConst v => v | IFresh k items => VCont k items | IClone => VStack [] end.
+  match i with IConst v => v | IFresh k items => VCont k items | IFreshN k inner => VNest k inner | IClone => VStack [] end.
 
 Definition decls := list (field * decl).     (* stack attribute name -> its registration *)
 Fixpoint decl_of (ds : decls) (s : field) : option decl :=
@@ -71,6 +79,7 @@ Inductive op : Set :=
   | OPushCheck (s : field)           (* leaving it: the manual-initialisation check *)
   | OSet (g : field) (v : val)       (* tracer.g = v   (v not a stack) *)
   | OAppend (g : field) (z : Z)      (* tracer.g.append(z) / .add(z) / [z] = z: in-place mutation of a container *)
+  | OAppendIn (g : field) (i : nat) (z : Z)   (* tracer.g[i].append(z): in-place mutation of a list INSIDE the container *)
   | ORead (s g : field) (h : Z)      (* stack.get_field(g, height=h); depth d is height -d *)
   | OLen (s : field)
   | OPop (s : field)
@@ -136,6 +145,15 @@ Definition step (ds : decls) (m : mgr) (o : op) : mgr * out :=
       match dget m g with
       | Some (VCont k items) => if N.eqb k 3 then (m, ErrAttr)             (* tuples are immutable *)
                                 else (dset m g (VCont k (items ++ [z])), Done)
+      | _ => (m, ErrAttr)
+      end
+  | OAppendIn g i z =>
+      match dget m g with
+      | Some (VNest k inner) =>
+          match nth_error inner i with
+          | Some l => (dset m g (VNest k (firstn i inner ++ (l ++ [z]) :: skipn (S i) inner)), Done)
+          | None => (m, ErrIndex)
+          end
       | _ => (m, ErrAttr)
       end
   | ORead s g h =>
